@@ -23,6 +23,8 @@ pub fn os_term(s: &Option<String>) -> String {
 pub enum Atom {
     Lit(String),
     Digits,
+    /// `[0-9]*`, written `\d*` (the texts have no non-ASCII digits): may match the empty string
+    Digits0,
     Rest,
 }
 #[derive(Clone, Debug, PartialEq, Serialize, Deserialize)]
@@ -44,6 +46,7 @@ fn atom_regex(a: &Atom) -> String {
     match a {
         Atom::Lit(l) => regex::escape(l),
         Atom::Digits => "[0-9]+".into(),
+        Atom::Digits0 => "\\d*".into(),
         Atom::Rest => ".*".into(),
     }
 }
@@ -51,6 +54,7 @@ fn atom_term(a: &Atom) -> String {
     match a {
         Atom::Lit(l) => format!("ALit {}", s_term(l)),
         Atom::Digits => "ADigits".into(),
+        Atom::Digits0 => "ADigits0".into(),
         Atom::Rest => "ARest".into(),
     }
 }
@@ -869,7 +873,7 @@ pub fn gen_pat(r: &mut Rng, field: usize) -> Pat {
         }
     };
     let mut p = Pat { start: r.chance(1, 6), items: vec![], end: r.chance(1, 8), valid: true };
-    match r.below(if field == RF_PAYEE { 8 } else { 3 }) {
+    match r.below(if field == RF_PAYEE { 10 } else { 3 }) {
         0 | 1 | 2 => p.items.push(Item::Plain(Atom::Lit(word(r)))),
         3 => p.items.push(Item::Payee(Atom::Lit(word(r)))),
         4 => {
@@ -889,6 +893,22 @@ pub fn gen_pat(r: &mut Rng, field: usize) -> Pat {
         }
         6 => {
             p.items.push(Item::Code(Atom::Digits));
+        }
+        8 => {
+            // "Migros(?P<payee>.*)": the group is empty when the literal reaches the end of the field
+            p.items.push(Item::Plain(Atom::Lit(word(r))));
+            p.items.push(Item::Payee(Atom::Rest));
+            p.end = p.end || r.chance(1, 2);
+        }
+        9 => {
+            // "(?P<code>\\d*)Card" / "Card(?P<code>\\d*)": empty unless digits are adjacent
+            if r.chance(1, 2) {
+                p.items.push(Item::Code(Atom::Digits0));
+                p.items.push(Item::Plain(Atom::Lit(word(r))));
+            } else {
+                p.items.push(Item::Plain(Atom::Lit(word(r))));
+                p.items.push(Item::Code(Atom::Digits0));
+            }
         }
         _ => {
             p.items.push(Item::Payee(Atom::Rest));
@@ -948,4 +968,49 @@ pub fn gen_rule(r: &mut Rng, conv_pct: u64) -> Rule {
         account,
         conversion: if r.below(100) < conv_pct { Some(gen_conv(r)) } else { None },
     }
+}
+
+/// A rule whose named group matches the EMPTY string on the payee text `payee` (the capture then
+/// sets payee / code to ""), and a follow-up rule that tells the rewritten payee from the original
+/// one: it matches `payee` but not "", or the other way round (`^$`).
+pub fn gen_empty_group_rules(r: &mut Rng, payee: &str) -> Vec<Rule> {
+    let lit = |s: &str| Item::Plain(Atom::Lit(s.to_string()));
+    let words: Vec<&str> = payee.split(' ').filter(|w| !w.is_empty()).collect();
+    let last = words.last().copied().unwrap_or(payee);
+    let first = words.first().copied().unwrap_or(payee);
+    let (start, items, end, sets_payee) = match r.below(7) {
+        // whole field consumed by the literal, `.*` left with nothing
+        0 => (r.chance(1, 2), vec![lit(payee), Item::Payee(Atom::Rest)], r.chance(1, 2), true),
+        1 => (false, vec![lit(last), Item::Payee(Atom::Rest)], true, true),
+        // greedy `.*` backtracks down to the empty string
+        2 => (true, vec![Item::Payee(Atom::Rest), lit(payee)], r.chance(1, 2), true),
+        // `\d*` next to a non-digit
+        3 => (false, vec![lit(payee), Item::Code(Atom::Digits0)], r.chance(1, 2), false),
+        4 => (r.chance(1, 2), vec![Item::Code(Atom::Digits0), lit(first)], false, false),
+        5 => (r.chance(1, 2), vec![Item::Payee(Atom::Digits0)], false, true),
+        _ => (true, vec![Item::Code(Atom::Digits0), lit(first), Item::Plain(Atom::Rest), Item::Payee(Atom::Digits0)], true, true),
+    };
+    let a = Rule {
+        matcher: vec![vec![(RF_PAYEE, Pat { start, items, end, valid: true })]],
+        as_list: r.chance(1, 3),
+        pending: r.chance(1, 3),
+        payee: None,
+        account: if r.chance(1, 2) { Some(r.pick(&ACCOUNTS).to_string()) } else { None },
+        conversion: None,
+    };
+    let follow = if sets_payee && r.chance(1, 4) {
+        Pat { start: true, items: vec![], end: true, valid: true } // ^$
+    } else {
+        let w = if r.chance(1, 2) { first } else { last };
+        Pat { start: r.chance(1, 4), items: vec![lit(w)], end: false, valid: true }
+    };
+    let b = Rule {
+        matcher: vec![vec![(RF_PAYEE, follow)]],
+        as_list: false,
+        pending: r.chance(1, 4),
+        payee: if r.chance(1, 5) { Some(gen_payee_text(r)) } else { None },
+        account: Some(r.pick(&ACCOUNTS).to_string()),
+        conversion: None,
+    };
+    vec![a, b]
 }
